@@ -6,6 +6,15 @@ from .common import *
 from .C02 import ACC_OPAQUE
 
 
+def cum_field(f):
+    """name of the one data member of discrete_distribution (the cumulative sums)"""
+    fs = [x for x in f.record.fields]
+    if len(fs) != 1:
+        raise AnalysisBroken('discrete_distribution is expected to have exactly one data member '
+                             '(the cumulative weights); found %d' % len(fs))
+    return fs[0]['name']
+
+
 def check(ctx):
     p = ctx.prog
     ctx.assume('std::upper_bound / std::lower_bound / std::partial_sum semantics as in the standard; '
@@ -26,7 +35,7 @@ def check(ctx):
             else:
                 ctx.violation('R3.one_draw', where, 'a selection does not consume exactly one canonical '
                               'number', {'draws': len(draws)})
-            ws = fld(sym('this'), 'weight_sums')
+            ws = fld(sym('this'), cum_field(f))
             r = s.ret
             u = None
             for t in T.subterms(r):
@@ -65,12 +74,12 @@ def check(ctx):
 
         def r2(c=c):
             V, n = sym('V'), sym('n')
-            s, ex = summarise(p, c, args={'begin': ('iter', V, ZERO), 'end': ('iter', V, n)})
+            s, ex = summarise(p, c, args={c.params[0].name: ('iter', V, ZERO), c.params[1].name: ('iter', V, n)})
             where = fsite(c)
             if len(s.loops) != 1:
                 raise AnalysisBroken('normalisation loop of the cumulative sums not recognised')
             ls = s.loops[0]
-            u = ls.updates.get('this.weight_sums')
+            u = upd_by_loc(ls, ('lv', ('this', 'this'), (('f', cum_field(c)),)))
             if u is None:
                 raise AnalysisBroken('weight_sums is not written by the constructor loop')
             if u['init'] == ('vpsum', V, ZERO, n, ZERO):
@@ -99,7 +108,7 @@ def check(ctx):
         def r4(f=f):
             s, ex = summarise(p, f, opaque=ACC_OPAQUE)
             where = fsite(f)
-            cw = sym('channel_weights')
+            cw = sym(f.params[2].name)
             maps = [(e, l) for e, l in flat_effects(s.effects) if e['kind'] == 'ucall'
                     and e['args'] and e['args'][-1] == ('enum', 'calculate_coordinates')]
             if len(maps) != 1:
